@@ -77,7 +77,14 @@ pub fn long_history_picture(rng: &mut Rng, cfg: &PicCfg, disposable: bool) -> Sy
 }
 
 pub fn failing_input(rng: &mut Rng, cfg: &PicCfg) -> Vec<u8> {
-    match rng.below(5) {
+    match rng.below(if cfg.flavour == Flavour::StdPlus { 7 } else { 5 }) {
+        5 | 6 => {
+            // standard mode: a PLUSPTYPE picture that switches optional modes on and is rejected after its header
+            let inter = rng.chance(1, 2);
+            let hd = crate::mon::ladder::plus_header_with_modes(rng, cfg.w, cfg.h, inter);
+            let bad = SymMb::Coded { kind: MbKind::Intra, dquant: 1, mvd: [[0; 2]; 4], blocks: std::array::from_fn(|_| SymBlock { intradc: Some(0), events: vec![] }) };
+            SymPicture { hdr: Hdr::Std(hd), w: cfg.w, h: cfg.h, mbs: vec![bad], stuffing: vec![] }.encode()
+        }
         0 => vec![],
         1 => vec![0xff, 0x12, 0x34],
         2 => {
@@ -129,7 +136,7 @@ pub fn run_history(ctx: &Ctx, steps: &[Step], tr_policy: u64, sorenson: bool, rn
     let mut cfg = gen_cfg(rng, flavour, w, h);
     cfg.stuffing_pct = 0;
     cfg.pei = 0;
-    let mut dec = Dec::new(sorenson, false);
+    let mut dec = Dec::new(sorenson, sorenson && rng.chance(1, 4));
     dec.chunk = *rng.pick(&[usize::MAX, usize::MAX, usize::MAX, 1, 4, 100]);
     if rng.chance(1, 6) {
         dec.stall = Some((rng.below(1001) as usize, rng.below(3) as u8));
@@ -245,6 +252,10 @@ pub fn run_history(ctx: &Ctx, steps: &[Step], tr_policy: u64, sorenson: bool, rn
             Step::P | Step::D | Step::T => {
                 let disposable = *st == Step::D;
                 let mut pic = if long { long_history_picture(rng, &cfg, disposable) } else { vector_field_picture(rng, &cfg, disposable) };
+                // standard mode: half of the predicted pictures do not restate format and modes (UFEP = 000)
+                if !sorenson && rng.chance(1, 2) && drop_format(&mut pic) {
+                    rep.count("predicted_pictures_without_restated_modes");
+                }
                 if *st == Step::T {
                     let n = pic.mbs.len();
                     pic.mbs.truncate(rng.below(n as u64) as usize);
@@ -508,7 +519,7 @@ pub fn run(ctx: &Ctx) -> (Report, String) {
     if ctx.is_main() {
         let m = ctx.scale_pct;
         rep.require("histories_completed", if thorough { 2_500_000 } else { 150_000 } * m / 100);
-        for k in ["predictions_identified", "predictions_after_non_reference_event", "tr_collision_cases", "trigram:IDP", "trigram:PDP", "trigram:DDP", "trigram:DFP", "trigram:DCP", "bigram:DD", "cleanup_calls", "rejected_inputs", "last_picture_checks", "reference_picture_checks", "early_ending_predicted_pictures", "all_intra_disposable_of_other_size", "trigram:TPP", "trigram:XPP", "calls_repeated_after_transient_source_error", "pictures_with_extra_information_bytes"] {
+        for k in ["predictions_identified", "predictions_after_non_reference_event", "tr_collision_cases", "trigram:IDP", "trigram:PDP", "trigram:DDP", "trigram:DFP", "trigram:DCP", "bigram:DD", "cleanup_calls", "rejected_inputs", "last_picture_checks", "reference_picture_checks", "early_ending_predicted_pictures", "all_intra_disposable_of_other_size", "trigram:TPP", "trigram:XPP", "calls_repeated_after_transient_source_error", "pictures_with_extra_information_bytes", "predicted_pictures_without_restated_modes"] {
             rep.require(k, 100 * m / 100);
         }
     }
